@@ -26,7 +26,6 @@ from a816.parse.ast.nodes import (
     ScopeAstNode,
     SymbolAffectationAstNode,
     TableAstNode,
-    Term,
     TextAstNode,
 )
 from a816.parse.nodes import (
@@ -49,7 +48,7 @@ from a816.parse.nodes import (
     TextNode,
     WordNode,
 )
-from a816.parse.tokens import Token, TokenType
+from a816.parse.tokens import Token
 from a816.symbols import Resolver
 
 MacroDefinitions = dict[str, Any]
@@ -319,14 +318,9 @@ def generate_for(
     for k in range(from_val, to_val):
         resolver.append_internal_scope()
         resolver.use_next_scope()
+        # bound while expanding, so conditions, inner loop bounds and := in the body see the iteration value.
+        resolver.current_scope.add_symbol(node.symbol, k)
         code.append(ScopeNode(resolver))
-        code.append(
-            SymbolNode(
-                node.symbol,
-                ExpressionAstNode([Term(Token(TokenType.NUMBER, str(k)))]),
-                resolver,
-            )
-        )
         code += _code_gen(node.body.body, resolver, macro_definitions)
         code.append(PopScopeNode(resolver))
         resolver.restore_scope()
